@@ -12,7 +12,7 @@ RULE = ("priors: poly_trend in {1,2,3} x n_offsets in {0,1,2} x K prior {default
         "e up to 0.95 and one row pinned at the K-variance cap; compared to rtol 1e-6 (5e-5 with a quadratic trend: conditioning); non-trivial = every case (jitter or trend or offsets)")
 EXHAUSTIVE = False
 BOUNDED = ["floating point: agreement to rtol 1e-6 / atol 1e-6 (Kepler tolerance 1e-10 in the kernel)"]
-BUDGET_S = {"quick": 60, "thorough": 900}
+BUDGET_S = {"quick": 120, "thorough": 900}
 KERNEL_IN_SYNC = None
 
 
@@ -32,10 +32,12 @@ def cases(tier, seed):
                             cfgs.append((pt_, no, cK, s, Pu, vu))
     if tier == "quick":
         rng = np.random.default_rng(seed)
-        keep = [c for c in cfgs if (c[0], c[1]) in ((1, 0), (2, 1), (3, 2), (1, 2)) and (c[4] == "yr") == (c[5] == "m/s")]
+        keep = [c for c in cfgs if (c[0], c[1]) in ((1, 0), (2, 0), (2, 1), (3, 2), (1, 2)) and (c[4] == "yr") == (c[5] == "m/s")]
         cfgs = keep
     for c in cfgs:
-        for layout in (("single",) if c[1] == 0 else ("disjoint", "interleaved")):
+        for layout in (("single", "single-tref-75", "single-tref+30", "single-tref-utc") if c[1] == 0 else ("disjoint", "interleaved", "disjoint-mixed-units")):
+            if layout.startswith("single-tref") and c[0] == 1 and not layout.endswith("utc"):
+                continue        # a reference epoch in TCB only enters through the trend columns
             yield "/".join(map(str, c)) + "/" + layout, {"pt": c[0], "no": c[1], "customK": c[2], "s": c[3], "Pu": c[4], "vu": c[5],
                                                          "seed": int(seed) + 5, "layout": layout}
 
@@ -44,12 +46,35 @@ def nontrivial(inp):
     return True
 
 
+_seen_features = set()
+
+
+def priority(inp):
+    """one representative of every (layout, poly_trend>1, K-prior kind, jitter) combination first"""
+    f0 = (inp["layout"], inp["pt"] > 1)
+    f1 = (inp["layout"], inp["pt"] > 1, inp["customK"], inp["s"] is not None)
+    pr = 0 if f0 not in _seen_features else (1 if f1 not in _seen_features else 2)
+    _seen_features.update((f0, f1))
+    return pr
+
+
 def build(inp):
     import astropy.units as u
     from thejoker import TheJoker
     prior = S.default_prior(poly_trend=inp["pt"], n_offsets=inp["no"], P_unit=inp["Pu"], v_unit=inp["vu"], s=inp["s"], custom_K=inp["customK"])
-    datas = [S.make_data(6 + (k % 2), inp["seed"] + 3 * k, unit=inp["vu"], t_shift=(450.0 * k if inp.get("layout") == "disjoint" else 0.0))
+    layout = inp.get("layout", "single")
+    other = "m/s" if inp["vu"] == "km/s" else "km/s"
+    datas = [S.make_data(6 + (k % 2), inp["seed"] + 3 * k, unit=(other if (layout == "disjoint-mixed-units" and k >= 1) else inp["vu"]),
+                         t_shift=(450.0 * k if layout.startswith("disjoint") else 0.0))
              for k in range(inp["no"] + 1)]
+    if layout.startswith("single-tref"):
+        # an explicit reference epoch that is not the earliest observation
+        from astropy.time import Time
+        d0 = datas[0]
+        shift = -75.0 if layout.endswith("-75") else 30.5
+        from thejoker import RVData
+        scale = "utc" if layout.endswith("-utc") else "tcb"
+        datas[0] = RVData(t=d0.t, rv=d0.rv, rv_err=d0.rv_err, t_ref=Time(d0.t.tcb.mjd.min() + shift, format="mjd", scale=scale))
     data = datas[0] if inp["no"] == 0 else datas
     return prior, data
 
@@ -66,8 +91,8 @@ def closed_form(prior, data, samples_rows, inp, parts=False):
     y = np.concatenate([d.rv.to_value(vu) for d in srcs])
     err = np.concatenate([d.rv_err.to_value(vu) for d in srcs])
     lab = np.concatenate([[k] * len(d) for k, d in enumerate(srcs)])
-    # the sampler's reference epoch: earliest time of the merged data
-    tref = t.min()
+    # the sampler's reference epoch: the data's declared one (single data set), the earliest time of the merged data otherwise
+    tref = float(data.t_ref.tcb.mjd) if inp["no"] == 0 else t.min()
     nl = 1 + inp["pt"] + inp["no"]
     cols = [np.ones_like(t)] + [(lab == k).astype(float) for k in range(1, inp["no"] + 1)] + [(t - tref) ** j for j in range(1, inp["pt"])]
     # prior means / variances in the data unit (v_j in unit/day^j)
@@ -144,6 +169,6 @@ def check(inp):
     rtol = 1e-6 if inp["pt"] <= 2 else 5e-5
     if not np.allclose(ll, want, rtol=rtol, atol=1e-6):
         # surveys interleaved in time run into the (separately listed) C08 label defect: reported under its own clause name
-        tag = "[multi-survey-interleaved]" if inp.get("layout") == "interleaved" else ""
+        tag = "[multi-survey-interleaved]" if inp.get("layout") == "interleaved" else ""      # (other layouts carry no tag)
         bad("equals-the-analytic-gaussian-marginal" + tag, got=ll, want=want, cfg=inp)
     return fails
